@@ -134,13 +134,20 @@ def rules(ctx: Ctx) -> None:
                f"`{name}` is filled while one set-operation branch is wired: it must be created inside the per-branch loop, so that nothing collected in one branch is visible in the next"
                + (f" (created at line {outside[0].lineno}, outside the loop)" if outside else ""))
     # the table group and column group of a branch are slices between consecutive barriers
-    slices = [n for n in ast.walk(BL) if isinstance(n, ast.Subscript) and isinstance(n.slice, ast.Slice) and (u(n.value) in ("self.columns", "self.tables"))]
-    ok_slices = len(slices) == 2 and all(n.slice.lower is not None and n.slice.upper is not None for n in slices)
+    def _is_list_of(e: ast.AST, attr: str) -> bool:
+        """the value is the handler's own `columns` / `tables` list (directly or through a local)"""
+        return any(isinstance(v, ast.Attribute) and v.attr == attr and u(v.value) == "self" for v in prog.value_sources(eoq, e))
+
+    tnames = {x.id for x in ast.walk(BL.target) if isinstance(x, ast.Name)}
+    slices = [n for n in ast.walk(BL) if isinstance(n, ast.Subscript) and isinstance(n.slice, ast.Slice) and (_is_list_of(n.value, "columns") or _is_list_of(n.value, "tables"))]
+    ok_slices = len(slices) == 2 and all(n.slice.lower is not None and n.slice.upper is not None and n.slice.step is None
+                                         and any(isinstance(x, ast.Name) and x.id in tnames for x in prog.influences(eoq, n.slice.upper)) for n in slices) \
+        and sorted(("columns" if _is_list_of(n.value, "columns") else "tables") for n in slices) == ["columns", "tables"]
     ctx.ob("R02.4", "branch-groups-are-barrier-slices", ok_slices, loc(eoq.mod, BL), "each branch wires columns[prev:cur] against tables[prev:cur] of the same barrier pair")
     # source columns resolved against this branch's table group
     tsc = [n for n in ast.walk(BL) if isinstance(n, ast.Call) and isinstance(n.func, ast.Attribute) and n.func.attr == "to_source_columns"]
-    ok_grp = bool(tsc) and all(isinstance(c.args[0], ast.Call) and c.args[0].args and isinstance(c.args[0].args[0], ast.Name) and any(
-        isinstance(node.value, ast.Subscript) and u(node.value.value) == "self.tables" for kind, node in prog.local_defs(eoq, c.args[0].args[0].id) if kind == "assign") for c in tsc)
+    ok_grp = bool(tsc) and all(isinstance(c.args[0], ast.Call) and c.args[0].args and any(
+        isinstance(v, ast.Subscript) and isinstance(v.slice, ast.Slice) and _is_list_of(v.value, "tables") for v in prog.value_sources(eoq, c.args[0].args[0])) for c in tsc)
     ctx.ob("R02.4", "sources-resolved-in-the-branch-scope", ok_grp, loc(eoq.mod, BL), "source columns of a branch are resolved against that branch's own table group")
 
     # ---- R02.1 precedence ------------------------------------------------------------------------
